@@ -141,6 +141,14 @@ package corazawaf
 //@     exits early: (tx.interruption != nil && phase != types.PhaseLogging) || tx.AllowType == corazatypes.AllowTypePhase ||
 //@         tx.AllowType == corazatypes.AllowTypeAll || (tx.AllowType == corazatypes.AllowTypeRequest && phase == types.PhaseRequestHeaders) ||
 //@         (tx.AllowType == corazatypes.AllowTypeRequest && phase == types.PhaseRequestBody)
+// skipAfter resumes at its marker (C08): when a rule of this phase that is not removed for the transaction carries
+// the pending marker, the marker is consumed there, so the rules after it are evaluated again; before that the pending
+// marker is left alone
+//@     step resumesAtMarker: prev(tx.SkipAfter) != "" && r.SecMark_ == prev(tx.SkipAfter) && (r.Phase_ == 0 || r.Phase_ == phase) &&
+//@         !has(tx.ruleRemoveByID, r.ID_) &&
+//@         (forall j int :: 0 <= j && j < len(tx.ruleRemoveByIDRanges) ==> !(r.ID_ >= tx.ruleRemoveByIDRanges[j][0] && r.ID_ <= tx.ruleRemoveByIDRanges[j][1]))
+//@         ==> tx.SkipAfter == ""
+//@     step markerKeptUntilFound: prev(tx.SkipAfter) != "" && r.SecMark_ != prev(tx.SkipAfter) ==> tx.SkipAfter == prev(tx.SkipAfter)
 // a rule removed for this transaction (ctl:ruleRemoveById, id or range) behaves like a rule that is not in the
 // configuration: it neither consumes a pending skip nor is it looked at for a pending skipAfter marker (C17)
 //@   at "tx.Skip--" requires removedRulesDoNotCount: !has(tx.ruleRemoveByID, r.ID_) &&
